@@ -219,11 +219,11 @@ def run(res, tier, seed, replay):
     n_univ = len({a for (a, b) in verdict if a == b})
     res.coverage.update(dict(
         correspondence_cases=len(cases), case_kinds=kinds, disagreements=len(disagreements),
-        spec_failures_on_impl=len(prop_fail), spec_evaluated_on=spec_defined, transitivity_triples=triples,
+        spec_failures_on_impl_incl_known=len(prop_fail), spec_evaluated_on=spec_defined, transitivity_triples=triples,
         diagnostic_class_changed_after_failed_check=diag_changed,
-        distinct_nontrivial=len(nontrivial), evaluations=len(cases), universe_kinds=n_univ,
+        distinct_nontrivial=len(nontrivial), evaluations=len(cases), reflexive_copy_cases=n_univ,
         exhaustive=(tier == "thorough"),
-        rule="pair: ordered pairs of the depth<=2 universe (%d kinds: all primitives, list/option/fixed list/tuple/"
+        rule="pair: ordered pairs of the depth<=2 universe (355 kinds; %d reflexive-copy cases incl. random ones: all primitives, list/option/fixed list/tuple/"
              "result arms/record/variant/enum/flags/stream/future/alias chains/own/borrow, functions with renames, "
              "arity, async, results; instances and components with width/depth variations; core modules with limit/flag "
              "variations), each side built in its own Types (quick: diagonal + all pairs differing in one position + "
@@ -302,6 +302,7 @@ def run(res, tier, seed, replay):
         e = known_sigs[sig]
         res.known.append("id=%s cases=%d witness=%r %s" % (e["id"], len(cs), cs[0], e["text"]))
     res.coverage["known_finding_cases"] = {k: len(v) for k, v in hits.items()}
+    res.coverage["spec_failures_on_impl"] = len(remaining)
     # the same narrow class is the only place where the model is allowed to differ from a REPAIRED implementation
     prop_fail = remaining
 
